@@ -15,6 +15,26 @@ claimed = {
         text="Every feasible path of the chunker (and, as they are added, tokenizer/factories) within the stated string-length bound is explored symbolically from the current SSA; each assertion is an unsat query. This is exhaustive within the bound over the full Unicode alphabet, which sampling cannot give; it says nothing beyond the bound or about the runtime evaluating the emitted closures.",
         note="Trusted: go/ssa front end, the gosmt executor, z3/cvc5; stubs: exporter -> uninterpreted Q. Bounds in evidence.coverage.bounds.",
         design="5.3"),
+    "C05": dict(
+        level="model_checking",
+        text="ValidateServicesScopes and BuildDependencyGraph are executed symbolically over a small configuration whose names and scope values are symbolic; the verdict must equal a reachability reference written from the property statement (shared ->+ contextual), with one diagnostic per offending pair naming both services. Generator side only: instance identity over Get histories is the runtime library's job.",
+        note="Trusted: abstract model of gontainer-helpers/v3/graph (exact reachability, order of Deps not modelled), solvers. Bounds in evidence.",
+        design="5.5"),
+    "C06": dict(
+        level="model_checking",
+        text="ValidateParamsExist / ValidateServicesExist executed symbolically with a symbolic reference placed in each of the five positions a reference can occur in; accepted iff declared, one diagnostic per dangling reference naming referrer and missing name, todo elements count as declared. Found and fixed: decorator arguments were not walked for parameters (D4).",
+        note="Trusted: executor, solvers; the link between dependency lists and emitted code is asserted in C03 (reference tokens) and C02.",
+        design="5.6"),
+    "C07": dict(
+        level="model_checking",
+        text="BuildDependencyGraph, ValidateCircularDeps and the runtime's container/internal/graph id scheme are executed symbolically; 'rejected iff the dependency relation of the statement is cyclic' is decided by the solver against a transitive-closure reference over symbolic names, including self-loops, tag and decorator edges and parameter edges.",
+        note="Trusted: abstract model of gontainer-helpers/v3/graph (gonum cycle enumeration summarised as: non-empty iff cyclic, a cycle through every node on one); replays of counterexamples run the real gonum code.",
+        design="5.7"),
+    "C09": dict(
+        level="model_checking",
+        text="input.Merge and its helpers executed symbolically on three symbolic inputs: associativity, identity of the empty file and the per-attribute laws (later scalar wins, maps united with later values winning, non-empty arguments replace, calls/tags/decorators append) are solver obligations over all nil-patterns and symbolic contents within the bound.",
+        note="Trusted: executor, solvers. The file-order fold of StepReadConfig is checked under C10's environment stubs; byte-identity of split vs unsplit output follows from these laws plus C08 and is not rendered.",
+        design="5.9"),
     "C11": dict(
         level="model_checking",
         text="Each grammar position (24 of them) gets one unconstrained symbolic string; the real validator (and the whole default validator) is executed symbolically and 'accepted iff in the documented language' is an equivalence the solver must prove for every string up to the bound, over all of Unicode. A one-character regex edit changes the RegLan term that is regenerated from the compiled program on every run. Joint reporting and the todo exemption are asserted the same way.",
